@@ -24,17 +24,17 @@ def shape(rng, did, n, mask, kinds="mixed", generics="none", style="none"):
 
 
 def decorate(rng, v):
-    """attributes other derives consume, so that `disabled` is met alone, inside a longer list and in a separate attribute"""
-    r = rng.random()
-    if r < 0.25:
+    """attributes other derives consume and non-strum attributes, independently of each other, so that `disabled` is met
+    alone, inside a longer list, in a separate attribute, and with doc comments / #[allow] before, between and after"""
+    if rng.random() < 0.25:
         v["msg"] = [[109]]
-    elif r < 0.45:
+    if rng.random() < 0.25:
         v["ser"] = [[120, 48 + rng.randrange(10)]]
-    elif r < 0.55:
-        v["docs"] = [[32, 100]]
-    elif r < 0.65:
+    if rng.random() < 0.2:
+        v["docs"] = [[32, 100]] + ([[32, 101]] if rng.random() < 0.3 else [])
+    if rng.random() < 0.12:
         v["aci"] = rng.choice([0, 1])           # consumed by EnumString only; every other derive must ignore it
-    elif r < 0.72:
+    if rng.random() < 0.15:
         v["xattrs"] = ["#[allow(dead_code)]"]    # a non-strum attribute next to the strum ones
     return v
 
